@@ -94,6 +94,11 @@ func c09Gen(rng *verifsim.RNG, idx int, tier string) *Plan {
 					a.Src = invalidSrc(0)
 				}
 			}
+			if rng.Bool(0.1) {
+				// a valid solicitation in the socket right behind the invalid message
+				t := rsAction(a.At, hostAddr(rng.Intn(3)))
+				a.Then = &t
+			}
 			p.Actions = append(p.Actions, a)
 			t += gap
 		}
